@@ -1,12 +1,14 @@
 """C14 — chains are continuous, resumable from a checkpoint, and recorded faithfully."""
-import os, tempfile
+import os, tempfile, builtins
 import numpy as np
 import z3
 from pvc.runner import Job
-from pvc import core, shims
+from pvc import core, shims, frame, loops
+from pvc.ghost import SInt, sint
 import cuqi
 import cuqi.experimental.mcmc as EX
 import cuqi.sampler as LG
+import cuqi.experimental.mcmc._sampler as SMOD
 from cuqi.distribution import Gaussian, Posterior, LMRF, JointDistribution, Gamma
 from cuqi.model import LinearModel
 
@@ -15,7 +17,10 @@ EXPLANATION = ("stateful interface: sample(N); sample(M) gives the same chain as
                "one entry (the state after the transition) appended per transition and the callback invoked exactly once with that state and its index; entries never altered later; "
                "reinitialize restores the constructed configuration. Stateless interface: recorded chain has the requested length, starts with the initial point, lists consecutive "
                "states, callback once per transition with the chain index, earlier entries not altered.")
-ASSUMPTIONS = ["symbolic versions (MH, PCN, MALA with real Gaussian targets of symbolic mean, symbolic draws) are at dimension 2 and 2-3 transitions; the other samplers and longer chains are native (level B)",
+ASSUMPTIONS = ["symbolic kernel jobs (MH, PCN, MALA, ULA, CWMH: uninterpreted targets, symbolic draws) are at dimension 2; chain length is unbounded through the cut base-class loops "
+               "(arbitrary kernel, symbolic chain length) and the state-closure clauses; NUTS, LinearRTO, UGLA closures and all chain comparisons are native (level B)",
+               "state closure: kernels read no mutable module-level state (instance attributes, the target and the random stream only); attribute reads are traced on the sampler instance, "
+               "values compared over everything reachable from the attribute",
                "pickle round trip is the identity on the state dictionary"]
 
 
@@ -59,6 +64,35 @@ def split_continuity(c, name, N=4, M=3, warm=0, tune_freq=None):
     c.eq('sample_N_then_M_is_sample_N_plus_M', b, a, tol=1e-12)
     z = run([N, 0, M])
     c.eq('sample_zero_in_between_changes_nothing', z, a, tol=1e-12)
+
+
+def hybrid_native_continuity(c, strategy):
+    """the real HybridGibbs with real block samplers (native): sample(N); sample(M) == sample(N+M), sample(0) in between changes nothing
+    and does not consume the random stream, also after warm-up"""
+    from cuqi.distribution import JointDistribution
+    seed = int(c.real('seed', lo=0, hi=10 ** 6))
+    def mk():
+        s = Gaussian(np.zeros(2), 1.0, name='s'); x = Gaussian(lambda s: s, 0.5, geometry=2, name='x')
+        J = JointDistribution(s, x)
+        blocks = {'MH+Direct': lambda: dict(s=EX.MH(scale=0.6), x=EX.Direct()), 'MH+MH': lambda: dict(s=EX.MH(scale=0.6), x=EX.MH(scale=0.5)),
+                  'Direct+Direct': lambda: dict(s=EX.MH(scale=0.6), x=EX.Direct())}[strategy]()
+        return EX.HybridGibbs(J, blocks)
+    def run(parts, warm=0):
+        np.random.seed(seed); G = mk()
+        if warm: G.warmup(warm)
+        for p in parts: G.sample(p)
+        S = G.get_samples()
+        return np.concatenate([S[k].samples for k in sorted(S)], axis=0)
+    import io, contextlib
+    with contextlib.redirect_stdout(io.StringIO()), contextlib.redirect_stderr(io.StringIO()):
+        a = run([7]); b = run([3, 4]); z = run([3, 0, 4]); z0 = run([0, 7])
+        aw = run([5], 4); bw = run([2, 3], 4)
+        np.random.seed(seed); G = mk(); G.sample(2); st0 = np.random.get_state()[1].copy(); G.sample(0); st1 = np.random.get_state()[1].copy()
+    c.eq('sample_N_then_M_is_sample_N_plus_M', b, a, tol=1e-12)
+    c.eq('sample_zero_in_between_changes_nothing', z, a, tol=1e-12)
+    c.eq('sample_zero_first_changes_nothing', z0, a, tol=1e-12)
+    c.eq('after_warmup:sample_N_then_M_is_sample_N_plus_M', bw, aw, tol=1e-12)
+    c.holds('sample_zero_does_not_consume_the_random_stream', bool(np.array_equal(st0, st1)))
 
 
 def resume(c, name, via, k=2, warm=6, N=5):
@@ -137,17 +171,20 @@ def _sym_target(c, n=2):
                                    gradient_func=lambda x: np.array([c.uf(f'gradpi{i}', *list(x)) for i in range(n)], dtype=object if c.sym else float))
 
 
-def _mk_sym(c, name, cb=None):
+def _mk_sym(c, name, cb=None, target=None):
     n = 2
-    if name == 'MH': return EX.MH(_sym_target(c), scale=c.real('scale0', pos=True), initial_point=c.vec('x0', n), callback=cb)
-    if name == 'MALA': return EX.MALA(_sym_target(c), scale=c.real('scale0', pos=True), initial_point=c.vec('x0', n), callback=cb)
-    if name == 'ULA': return EX.ULA(_sym_target(c), scale=c.real('scale0', pos=True), initial_point=c.vec('x0', n), callback=cb)
-    if name == 'CWMH': return EX.CWMH(_sym_target(c), scale=c.real('scale0', lo=0, hi=1), initial_point=c.vec('x0', n), callback=cb)
+    tg = target if target is not None else (_sym_target(c) if name != 'PCN' else None)
+    if name == 'MH': return EX.MH(tg, scale=c.real('scale0', pos=True), initial_point=c.vec('x0', n), callback=cb)
+    if name == 'MALA': return EX.MALA(tg, scale=c.real('scale0', pos=True), initial_point=c.vec('x0', n), callback=cb)
+    if name == 'ULA': return EX.ULA(tg, scale=c.real('scale0', pos=True), initial_point=c.vec('x0', n), callback=cb)
+    if name == 'CWMH': return EX.CWMH(tg, scale=c.real('scale0', lo=0, hi=1), initial_point=c.vec('x0', n), callback=cb)
     if name == 'PCN':
-        from cuqi.likelihood import UserDefinedLikelihood
-        x = Gaussian(c.vec('pm', n), c.vec('pv', n, pos=True), name='x')
-        L = UserDefinedLikelihood(dim=n, logpdf_func=lambda x: c.uf('loglike', *list(x)))
-        return EX.PCN(Posterior(L, x), scale=c.real('scale0', lo=0, hi=1), initial_point=c.vec('x0', n), callback=cb)
+        if tg is None:
+            from cuqi.likelihood import UserDefinedLikelihood
+            x = Gaussian(c.vec('pm', n), c.vec('pv', n, pos=True), name='x')
+            L = UserDefinedLikelihood(dim=n, logpdf_func=lambda x: c.uf('loglike', *list(x)))
+            tg = Posterior(L, x)
+        return EX.PCN(tg, scale=c.real('scale0', lo=0, hi=1), initial_point=c.vec('x0', n), callback=cb)
 
 
 def _queue(c, name, T, n=2):
@@ -170,22 +207,30 @@ def _clear_queue(c):
 
 
 def sym_resume(c, name, T=2):
-    """uninterrupted: initialise, tune (scale changes), T transitions.  resumed: FRESH sampler, set_state(state after tuning), same draws"""
+    """uninterrupted: initialise, tune (scale changes), T transitions.  resumed: FRESH sampler, set_state(state after tuning), same draws.
+    State closure: every instance attribute the resumed run reads before writing it equals that of the uninterrupted sampler at the checkpoint
+    (all paths of the kernel are explored, so these are ALL its inputs: equal inputs, same kernel, same stream => same chain of any length)"""
     s = _mk_sym(c, name); s.initialize()
     s._acc = [1, 0, 1, 1] if name != 'CWMH' else [np.array([1, 0]), np.array([0, 0]), np.array([1, 1]), np.array([1, 0])]
     s.tune(2, 0)                                   # warm-up moved the tuned state away from the constructed one
     saved = s.get_state()
+    hist = set(s._HISTORY_KEYS)
+    A = _attr_snap(s, hist)
     _queue(c, name, T)
     accs = [s.step() for _ in range(T)]
     after = s.get_state()['state']
     _clear_queue(c)
-    s2 = _mk_sym(c, name); s2.initialize(); s2.set_state(saved)
+    s2 = _mk_sym(c, name, target=s.target); s2.initialize(); s2.set_state(saved)
+    B = _attr_snap(s2, hist)
     _queue(c, name, T)
-    accs2 = [s2.step() for _ in range(T)]
+    log = trace(s2)
+    try: accs2 = [s2.step() for _ in range(T)]
+    finally: untrace(s2)
     after2 = s2.get_state()['state']
     c.holds('same_acceptance_decisions', all(np.array_equal(np.asarray(a1, dtype=float), np.asarray(a2, dtype=float)) for a1, a2 in zip(accs, accs2)))
     for k in sorted(after):
         c.eq(f'state[{k}]_after_resumed_transitions_equals_uninterrupted', after2[k], after[k])
+    closure_clauses(c, A, B, log, hist | {'_is_initialized'}, 'closure:')
 
 
 def sym_recording(c, name, T=2):
@@ -203,6 +248,227 @@ def sym_recording(c, name, T=2):
     s.sample(1)
     c.holds('continued_chain_has_T_plus_1_entries', len(s._samples) == T + 1)
     c.eq('earlier_entry_not_altered_by_later_transitions', s._samples[0], first)
+
+
+# ------------------------------------------------------------------------------------------ base-class loops with a generic kernel
+class GhostList:
+    """a stored chain of SYMBOLIC length n whose existing entries are opaque: appends are collected, every other access is logged"""
+    def __init__(self, name, n): self.name = name; self.n = n; self.appended = []; self.log = []
+    def append(self, v): self.appended.append(v)
+    def glen(self): return self.n + builtins.len(self.appended)
+    def __getitem__(self, k):
+        self.log.append(('getitem', k))
+        if isinstance(k, slice): return np.array([0.5])          # (only the progress display reads a slice of the acceptance history)
+        raise core.Concretised("entry of a ghost list")
+    def __setitem__(self, k, v): self.log.append(('mutate', 'setitem', k))
+    def __delitem__(self, k): self.log.append(('mutate', 'delitem', k))
+    def pop(self, *a): self.log.append(('mutate', 'pop') + a)
+    def insert(self, i, v): self.log.append(('mutate', 'insert', i))
+    def extend(self, it): self.log.append(('mutate', 'extend'))
+    def clear(self): self.log.append(('mutate', 'clear'))
+    def __iter__(self): raise core.Concretised("iteration over a ghost list")
+    def mutations(self): return [e for e in self.log if e[0] == 'mutate']
+
+
+class _GhostRange:
+    def __init__(self, *a): self.args = a
+class _Bar:
+    def __init__(self, it, *a, **k): self.it = it; self.desc = a
+    def set_postfix_str(self, s): pass
+    def __iter__(self): return iter(self.it)
+def _len(x): return x.glen() if isinstance(x, GhostList) else builtins.len(x)
+def _range(*a): return _GhostRange(*a) if any(isinstance(v, SInt) for v in a) else builtins.range(*a)
+
+
+def _loop_extra():
+    # builtins are looked up in the module globals first: len / range of the sampler module see symbolic lengths; tqdm is display only
+    return {'cuqi.experimental.mcmc._sampler': dict(tqdm=_Bar, len=_len, range=_range)}
+
+
+def _generic_sampler(cb_log):
+    """a sampler whose kernel is arbitrary: step() replaces the current point by a fresh opaque object and returns a fresh acceptance token"""
+    class Generic(SMOD.Sampler):
+        def _initialize(self): pass
+        def validate_target(self): pass
+        def step(self):
+            self.calls.append(('step',)); self.current_point = ('state', builtins.len(self.calls)); return ('acc', builtins.len(self.calls))
+        def tune(self, skip_len, update_count): self.calls.append(('tune', skip_len, update_count, self.current_point))
+    class _T:               # the loops only touch the target through the sampler's own methods
+        dim = 2; geometry = None
+    s = Generic(_T(), initial_point=('state', 0), callback=lambda x, i: cb_log.append((x, i)))
+    s.calls = []
+    return s
+
+
+def _vars(t):
+    out = set()
+    def walk(e):
+        if z3.is_const(e) and e.decl().kind() == z3.Z3_OP_UNINTERPRETED: out.add(str(e))
+        for ch in e.children(): walk(ch)
+    walk(t); return out
+
+
+def base_loop(c, which):
+    """Sampler.sample / Sampler.warmup, loop cut mechanically from the real method; ONE iteration from an arbitrary loop-head state
+    (chain of symbolic length, symbolic loop counter, arbitrary kernel): with the prologue/epilogue clauses below this is the induction step of
+    'sample(N) performs exactly N transitions, appends the state after each to the end of the chain and reports it once with its chain index'
+    for every N and every earlier history"""
+    cb = []
+    s = _generic_sampler(cb); s.initialize()
+    fn = SMOD.Sampler.sample if which == 'sample' else SMOD.Sampler.warmup
+    pre, cond, body, post, names, info = loops.split_loop(fn, 0)
+    n0 = sint('chain_length'); Nreq = sint('N_requested'); idx = sint('idx')
+    c.assume(core.SBool(n0.t >= 0)); c.assume(core.SBool(z3.And(idx.t >= 0, idx.t < Nreq.t)))
+    chain = GhostList('_samples', n0); acc = GhostList('_acc', n0 + 1)
+    s._samples = chain; s._acc = acc
+    # ---- prologue on an initialised sampler: nothing happens to state or history ----
+    D0 = frame.snapshot(s, ('calls',))
+    if which == 'sample': tag, st = pre({'self': s, 'Ns': Nreq, 'batch_size': 0, 'sample_path': './none/'})
+    else: tag, st = pre({'self': s, 'Nb': 10, 'tune_freq': 0.3})          # (the tuning interval is generalised below)
+    c.holds('prologue:falls_through_to_the_loop', tag == '__next')
+    c.holds('prologue:no_transition_no_callback', s.calls == [] and cb == [])
+    c.holds('prologue:state_and_history_untouched', frame.same(D0, frame.snapshot(s, ('calls',))) and not chain.appended and not acc.appended and not chain.mutations(),
+            note='; '.join(frame.diff(D0, frame.snapshot(s, ('calls',)))))
+    st = dict(st)
+    it = cond(st)
+    if which == 'sample':
+        c.holds('loop_runs_over_range_of_the_requested_number', isinstance(it, _Bar) and isinstance(it.it, _GhostRange) and builtins.len(it.it.args) == 1 and it.it.args[0] is Nreq)
+    else:
+        c.holds('loop_runs_over_range_of_the_requested_number', isinstance(it, _Bar) and isinstance(it.it, builtins.range) and it.it == builtins.range(10))
+        c.holds('tuning_interval_is_the_documented_fraction_of_the_warmup_length', st['tune_interval'] == 3, note=str(st.get('tune_interval')))
+        ti = sint('tune_interval'); c.assume(core.SBool(ti.t >= 1)); st['tune_interval'] = ti
+    # ---- one iteration ----
+    st[info['target']] = idx
+    tagb, st1 = body(st)
+    c.holds('iteration:falls_through', tagb == '__next')
+    steps = [e for e in s.calls if e[0] == 'step']; tunes = [e for e in s.calls if e[0] == 'tune']
+    c.holds('iteration:exactly_one_transition', builtins.len(steps) == 1 and s.calls[0][0] == 'step')
+    new = ('state', 1)
+    c.holds('iteration:state_after_the_transition_appended_once_at_the_end_of_the_chain', builtins.len(chain.appended) == 1 and chain.appended[0] == new and s._samples is chain)
+    c.holds('iteration:earlier_entries_never_touched', chain.mutations() == [] and not any(e[0] == 'getitem' for e in chain.log), note=str(chain.log))
+    c.holds('iteration:acceptance_record_appended_once', acc.appended == [('acc', 1)] and acc.mutations() == [] and s._acc is acc)
+    c.holds('iteration:callback_invoked_exactly_once_with_the_new_state', builtins.len(cb) == 1 and cb[0][0] == new)
+    if builtins.len(cb) == 1:
+        ci = cb[0][1]
+        c.holds('iteration:callback_index_is_the_position_of_the_new_entry_in_the_chain', SInt.lift(ci) == n0)
+        if isinstance(ci, SInt):
+            c.holds('iteration:callback_index_independent_of_loop_counter_and_requested_number', not (_vars(ci.t) & {'idx', 'N_requested'}), note=str(ci))
+    c.holds('iteration:current_point_is_the_last_entry', s.current_point == new)
+    if which == 'warmup':
+        ti = st['tune_interval']
+        due = core.SBool((idx.t + 1) % ti.t == 0)
+        if tunes:
+            c.holds('iteration:tuning_only_when_an_interval_is_complete', due)
+            c.holds('iteration:tuning_happens_once_after_the_transition_and_before_recording', builtins.len(tunes) == 1 and s.calls[1][0] == 'tune' and tunes[0][3] == new)
+            c.holds('iteration:tuning_receives_interval_and_count', SInt.lift(tunes[0][1]) == ti)
+            c.holds('iteration:tuning_count_is_number_of_completed_intervals_before', core.SBool(SInt.lift(tunes[0][2]).t * ti.t == idx.t + 1 - ti.t))
+        else:
+            c.holds('iteration:tuning_whenever_an_interval_is_complete', core.SBool(z3.Not(due.t)))
+    else:
+        c.holds('iteration:no_tuning_in_the_sampling_phase', not tunes)
+    # ---- epilogue ----
+    k0 = builtins.len(s.calls); cb0 = builtins.len(cb)
+    tagp, ret = post(dict(st1))
+    c.holds('epilogue:returns_the_sampler', tagp == '__ret' and ret is s)
+    c.holds('epilogue:no_transition_no_callback_no_record', builtins.len(s.calls) == k0 and builtins.len(cb) == cb0 and builtins.len(chain.appended) == 1 and chain.mutations() == [])
+
+
+def base_loop_first_use(c, which):
+    """the prologue on a sampler that was never initialised: initialises it (empty chain) and performs no transition"""
+    cb = []; s = _generic_sampler(cb)
+    fn = SMOD.Sampler.sample if which == 'sample' else SMOD.Sampler.warmup
+    pre, cond, body, post, names, info = loops.split_loop(fn, 0)
+    if which == 'sample': tag, st = pre({'self': s, 'Ns': 3, 'batch_size': 0, 'sample_path': './none/'})
+    else: tag, st = pre({'self': s, 'Nb': 3, 'tune_freq': 0.1})
+    c.holds('prologue_on_first_use:initialises_with_an_empty_chain_at_the_initial_point', s._is_initialized and s._samples == [] and s.current_point == ('state', 0))
+    c.holds('prologue_on_first_use:no_transition_no_callback', s.calls == [] and cb == [])
+
+
+# ------------------------------------------------------------------------------------------ state closure (resume for every chain length)
+def trace(obj):
+    """rebind obj's class to a subclass that logs attribute reads (of instance attributes) and writes; returns the log"""
+    cls = type(obj); log = []
+    class Traced(cls):
+        def __getattribute__(self, k):
+            if not k.startswith('__'):
+                if k in object.__getattribute__(self, '__dict__'): log.append(('r', k))
+            return cls.__getattribute__(self, k)
+        def __setattr__(self, k, v):
+            log.append(('w', k)); cls.__setattr__(self, k, v)
+    Traced.__name__ = cls.__name__; Traced.__qualname__ = cls.__qualname__; Traced.__module__ = cls.__module__
+    obj.__class__ = Traced
+    return log
+
+
+def untrace(obj): obj.__class__ = type(obj).__mro__[1]
+
+
+def inputs_of(log):
+    first = {}
+    for ev, k in log: first.setdefault(k, ev)
+    return sorted(k for k, ev in first.items() if ev == 'r')
+
+
+def closure_clauses(c, running, fresh, log, hist, tag=''):
+    """every instance attribute that the continued run READS before writing it has the same value in the fresh sampler that was
+    given the saved state as in the sampler that kept running (snapshots taken at the checkpoint)"""
+    A, B = running, fresh
+    ins = inputs_of(log)
+    c.holds(f'{tag}continued_run_reads_some_state', builtins.len(ins) > 0)
+    for k in ins:
+        if k in hist: continue
+        a = A.get(k, ('missing',)); b = B.get(k, ('missing',))
+        c.holds(f'{tag}attribute_read_by_the_continued_run_equals_that_of_the_uninterrupted_sampler[{k}]', frame.structural(a) == frame.structural(b),
+                note='; '.join(frame.diff(frame.structural(a), frame.structural(b), k)))
+
+
+def _attr_snap(s, hist):
+    return {k: frame.snapshot_by_code(v, owner=s) for k, v in vars(s).items() if k not in hist}
+
+
+def native_closure(c, name, warm=6, k=2, steps=6):
+    """native (bounded): real sampler warmed up and advanced; fresh sampler of the same configuration (sharing the target object) receives
+    the saved state; the continued run is traced over `steps` transitions of sample()"""
+    import io, contextlib
+    seed = int(c.real('seed', lo=0, hi=10 ** 6)); np.random.seed(seed)
+    s = EXP[name]()
+    with contextlib.redirect_stderr(io.StringIO()):
+        if warm: s.warmup(warm)
+        s.sample(k)
+        saved = s.get_state()
+        hist = set(s._HISTORY_KEYS)
+        s2 = EXP[name](); s2.target = s.target; s2.initialize(); s2.set_state(saved)
+        A = _attr_snap(s, hist); B = _attr_snap(s2, hist)
+        log = trace(s2)
+        try: s2.sample(steps)
+        finally: untrace(s2)
+        # entering the sampling phase again (its prologue and epilogue, no transition) changes no attribute of a sampler that is in it
+        rs = np.random.get_state()[1].copy()
+        Z0 = {k: frame.structural(v) for k, v in _attr_snap(s, ()).items()}
+        s.sample(0)
+        Z1 = {k: frame.structural(v) for k, v in _attr_snap(s, ()).items()}
+    closure_clauses(c, A, B, log, hist | {'_is_initialized'})
+    changed = sorted(k for k in set(Z0) | set(Z1) if Z0.get(k) != Z1.get(k))
+    c.holds('entering_the_sampling_phase_again_changes_no_attribute', not changed, note=f"changed: {changed}")
+    c.holds('entering_the_sampling_phase_again_consumes_no_random_number', bool(np.array_equal(rs, np.random.get_state()[1])))
+
+
+def legacy_wrapper(c, adapt):
+    """legacy Sampler.sample / sample_adapt around an ARBITRARY kernel loop: for symbolic N, Nb (N + Nb >= 2) the returned Samples object holds exactly the
+    array the sampler's loop returned (same object, no subscript applied by the wrapper), with the target's geometry and the reported diagnostics"""
+    from pvc.ghost import GhostArray
+    N = sint('N'); Nb = sint('Nb')
+    c.assume(core.SBool(z3.And(N.t >= 1, Nb.t >= 0, N.t + Nb.t >= 2)))
+    arr = GhostArray('chain', (3, N)); ll = GhostArray('loglike', (N,)); calls = []
+    class K(LG.Sampler):
+        def _sample(self, N_, Nb_): calls.append(('sample', N_, Nb_)); return arr, ll, 0.25
+        def _sample_adapt(self, N_, Nb_): calls.append(('adapt', N_, Nb_)); return arr, ll, 0.25
+    tgt = Gaussian(np.zeros(3), 1.0, name='x')
+    k = K(tgt)
+    out = (k.sample_adapt if adapt else k.sample)(N, Nb)
+    c.holds('kernel_loop_called_once_with_the_requested_numbers', len(calls) == 1 and calls[0][0] == ('adapt' if adapt else 'sample') and calls[0][1] is N and calls[0][2] is Nb)
+    c.holds('returned_chain_is_the_array_of_the_kernel_loop_unaltered', isinstance(out, cuqi.samples.Samples) and out.samples is arr, note=repr(getattr(out, 'samples', out)))
+    c.holds('returned_object_carries_the_target_geometry_and_the_diagnostics', out.geometry == tgt.geometry and out.loglike_eval is ll and out.acc_rate == 0.25)
 
 
 # ------------------------------------------------------------------------------------------ legacy (stateless) interface
@@ -257,6 +523,9 @@ def jobs(tier):
                 J.append(Job(f'experimental.{name}:resume_via_{via}:checkpoint_at={k}', lambda c, n=name, v=via, k=k: resume(c, n, v, k), 'B', FL, nnum=2))
         J.append(Job(f'experimental.{name}:recording_and_callback', lambda c, n=name: recording(c, n), 'B', FL, nnum=2))
         J.append(Job(f'experimental.{name}:reinitialize', lambda c, n=name: reinit(c, n), 'B', FL, nnum=1))
+    for strat in ('MH+Direct', 'MH+MH'):
+        J.append(Job(f'experimental.HybridGibbs({strat}):split_continuity_native', lambda c, st=strat: hybrid_native_continuity(c, st), 'B',
+                     ['cuqi.experimental.mcmc._gibbs:HybridGibbs.sample', 'cuqi.experimental.mcmc._gibbs:HybridGibbs.warmup', 'cuqi.experimental.mcmc._direct:Direct.validate_target'], nnum=2))
     for name in ('MH', 'LinearRTO'):
         for (N_, b_) in ((5, 2), (4, 2), (3, 5)):
             J.append(Job(f'experimental.{name}:batches_on_disk:N={N_}:batch_size={b_}', lambda c, n=name, N_=N_, b_=b_: batches_on_disk(c, n, N_, b_), 'B', FL + [f'{SM}:_BatchHandler.add_sample', f'{SM}:_BatchHandler.flush'], nnum=1))
@@ -265,11 +534,22 @@ def jobs(tier):
         J.append(Job(f'experimental.{name}:symbolic:resume_in_fresh_sampler_after_tuning', lambda c, n=name: sym_resume(c, n), 'Pbox',
                      FL + [f'cuqi.experimental.mcmc.{mod}.step', f'cuqi.experimental.mcmc.{mod}.tune'], maxpaths=1024, timeout=900, num=False))
         J.append(Job(f'experimental.{name}:symbolic:recording_and_callback', lambda c, n=name: sym_recording(c, n, 1 if n == 'CWMH' else 2), 'Pbox', FL, maxpaths=2048, timeout=900, num=False))
+    # base-class loops with an arbitrary kernel (every N, every earlier history) and the state-closure argument for resuming
+    for which in ('sample', 'warmup'):
+        J.append(Job(f'experimental.Sampler.{which}:loop0:generic_kernel:one_iteration_from_arbitrary_history', lambda c, w=which: base_loop(c, w), 'Pinf',
+                     [f'{SM}:Sampler.{which}', f'{SM}:Sampler._call_callback', f'{SM}:Sampler._ensure_initialized'], extra=_loop_extra, num=False))
+        J.append(Job(f'experimental.Sampler.{which}:prologue_on_first_use', lambda c, w=which: base_loop_first_use(c, w), 'Pbox',
+                     [f'{SM}:Sampler.{which}', f'{SM}:Sampler.initialize'], extra=_loop_extra, num=False))
+    for name in EXP:
+        J.append(Job(f'experimental.{name}:state_closure_native', lambda c, n=name: native_closure(c, n), 'B', [f'{SM}:Sampler.get_state', f'{SM}:Sampler.set_state'], nnum=2))
     LS = 'cuqi.sampler._sampler'
     for name in LEG:
         for adapt in (False, True):
             J.append(Job(f'legacy.{name}:{"sample_adapt" if adapt else "sample"}:recording_and_callback', lambda c, n=name, a=adapt: legacy_recording(c, n, a), 'B',
                          [f'{LS}:Sampler.sample', f'{LS}:Sampler.sample_adapt', f'{LS}:Sampler._create_Sample_object'], nnum=2))
+    for adapt in (False, True):
+        J.append(Job(f'legacy.Sampler.{"sample_adapt" if adapt else "sample"}:wrapper:arbitrary_kernel_loop:symbolic_N_Nb', lambda c, a=adapt: legacy_wrapper(c, a), 'Pinf',
+                     [f'{LS}:Sampler.sample', f'{LS}:Sampler.sample_adapt', f'{LS}:Sampler._create_Sample_object'], num=False))
     # "for both Gibbs samplers": sample(N); sample(M) == sample(N+M), with and without warm-up, values as terms (contracts shared with C09)
     from contracts import C09 as _c09
     J += [j for j in _c09.jobs(tier) if j.id in ('HybridGibbs:continuation_and_warmup', 'legacy.Gibbs:stored_columns_and_continuation')]
